@@ -413,8 +413,11 @@ class Run:
             "wall_s": round(wall, 2),
             "violations": len(violations),
         }
-        os.makedirs(os.path.join(VERIF, "evidence"), exist_ok=True)
-        with open(os.path.join(VERIF, "evidence", self.prop + ".json"), "w") as f:
+        # VERIF_OUT redirects evidence and replays (bin/seedtest runs mutants in scratch worktrees, in parallel,
+        # without touching the committed evidence); the registered commands never set it
+        out_base = os.environ.get("VERIF_OUT") or VERIF
+        os.makedirs(os.path.join(out_base, "evidence"), exist_ok=True)
+        with open(os.path.join(out_base, "evidence", self.prop + ".json"), "w") as f:
             json.dump(ev, f, indent=1, ensure_ascii=False)
             f.write("\n")
         for kid, ds in sorted(hits.items()):
@@ -440,7 +443,7 @@ class Run:
         body = json.dumps({"property": self.prop, "sig": d["sig"], "what": d["what"], "trigger": d.get("trigger"),
                            "case": d["case"], "observed": d.get("obs")}, ensure_ascii=False, indent=1, sort_keys=True)
         h = hashlib.sha1(body.encode("utf-8")).hexdigest()[:16]
-        ddir = os.path.join(VERIF, "replays", self.prop)
+        ddir = os.path.join(os.environ.get("VERIF_OUT") or VERIF, "replays", self.prop)
         os.makedirs(ddir, exist_ok=True)
         pth = os.path.join(ddir, h + ".json")
         with open(pth, "w") as f:
